@@ -206,6 +206,29 @@ func findAssign(fn *ast.FuncDecl, lhs string, nth int) ast.Expr {
 	return out
 }
 
+// findAssignLit returns the literal RHS of the first assignment of a basic literal to ident lhs in fn.
+func findAssignLit(fn *ast.FuncDecl, lhs string) ast.Expr {
+	var out ast.Expr
+	ast.Inspect(fn.Body, func(n ast.Node) bool {
+		if out != nil {
+			return false
+		}
+		if as, ok := n.(*ast.AssignStmt); ok && len(as.Lhs) == 1 && len(as.Rhs) == 1 {
+			if id, ok := as.Lhs[0].(*ast.Ident); ok && id.Name == lhs {
+				if _, lit := as.Rhs[0].(*ast.BasicLit); lit {
+					out = as.Rhs[0]
+					return false
+				}
+			}
+		}
+		return true
+	})
+	if out == nil {
+		die("literal assignment to %s not found in %s", lhs, fn.Name.Name)
+	}
+	return out
+}
+
 func main() {
 	if len(os.Args) < 2 {
 		die("usage: genconst <repo>")
@@ -318,6 +341,16 @@ func main() {
 	b.WriteString("(* nullseed.go nullChunkSection.clone *)\n")
 	for _, v := range []string{"dstAlignStart", "dstAlignEnd"} {
 		fmt.Fprintf(&b, "Definition nsclone_%s %s : N := %s.\n", v, nparams, exprToCoq(findAssign(nc, v, 0), nil))
+	}
+	// --- C01: the per-segment row limit of seeds without reflinks (fileseed.go, nullseed.go: `limit = 100`) ---
+	b.WriteString("\n(* fileseed.go FileSeed.LongestMatchWith / nullseed.go nullChunkSeed.LongestMatchWith: limit = ... *)\n")
+	for _, site := range []struct{ recv, coq string }{{"FileSeed", "fileseed_limit"}, {"nullChunkSeed", "nullseed_limit"}} {
+		fn := findMethod(site.recv, "LongestMatchWith")
+		v, ok := evalInt(findAssignLit(fn, "limit"), 0)
+		if !ok {
+			die("%s.LongestMatchWith: limit is not an integer constant", site.recv)
+		}
+		fmt.Fprintf(&b, "Definition %s : nat := %s%%nat.\n", site.coq, v.String())
 	}
 	// --- C05: FileMode/st_mode bits, mkdev and the rdev split (tools/genconst/c05.go) ---
 	genC05(&b)
